@@ -166,7 +166,11 @@ func (c *srvPC) WriteTo(b []byte, addr net.Addr) (int, error) {
 	if rd == nil || rd.faults == nil {
 		return c.UDPConn.WriteTo(b, addr)
 	}
-	f := rd.faults
+	return rd.faults.send(c.UDPConn, b, addr)
+}
+
+// send applies loss / duplication / reordering to one datagram.
+func (f *faults) send(uc *net.UDPConn, b []byte, addr net.Addr) (int, error) {
 	f.mu.Lock()
 	defer f.mu.Unlock()
 	x := f.rng.IntN(1000)
@@ -178,10 +182,10 @@ func (c *srvPC) WriteTo(b []byte, addr net.Addr) (int, error) {
 		f.held = append(f.held, held{b: append([]byte{}, b...), addr: addr, left: 1 + f.rng.IntN(6)})
 		return len(b), nil
 	default:
-		c.UDPConn.WriteTo(b, addr) //nolint:errcheck
+		uc.WriteTo(b, addr) //nolint:errcheck
 		if x < f.loss+f.reorder+f.dup {
 			f.nDup++
-			c.UDPConn.WriteTo(b, addr) //nolint:errcheck
+			uc.WriteTo(b, addr) //nolint:errcheck
 		}
 	}
 	// release held datagrams whose delay expired
@@ -189,13 +193,23 @@ func (c *srvPC) WriteTo(b []byte, addr net.Addr) (int, error) {
 	for _, h := range f.held {
 		h.left--
 		if h.left <= 0 {
-			c.UDPConn.WriteTo(h.b, h.addr) //nolint:errcheck
+			uc.WriteTo(h.b, h.addr) //nolint:errcheck
 		} else {
 			keep = append(keep, h)
 		}
 	}
 	f.held = keep
 	return len(b), nil
+}
+
+// flushTo sends what is still held back.
+func (f *faults) flushTo(uc *net.UDPConn) {
+	f.mu.Lock()
+	for _, h := range f.held {
+		uc.WriteTo(h.b, h.addr) //nolint:errcheck
+	}
+	f.held = nil
+	f.mu.Unlock()
 }
 
 func (c *srvPC) ReadFrom(b []byte) (int, net.Addr, error) {
@@ -208,15 +222,9 @@ func (c *srvPC) ReadFrom(b []byte) (int, net.Addr, error) {
 
 // flush sends what is still held back.
 func (c *srvPC) flush(rd *reader) {
-	if rd.faults == nil {
-		return
+	if rd.faults != nil {
+		rd.faults.flushTo(c.UDPConn)
 	}
-	rd.faults.mu.Lock()
-	for _, h := range rd.faults.held {
-		c.UDPConn.WriteTo(h.b, h.addr) //nolint:errcheck
-	}
-	rd.faults.held = nil
-	rd.faults.mu.Unlock()
 }
 
 // ---------------------------------------------------------------------------------------------
@@ -241,13 +249,17 @@ func (c *cliPC) ReadFrom(b []byte) (int, net.Addr, error) {
 // pubPC counts the RTP datagrams the publishing client's writer goroutine really sent.
 type pubPC struct {
 	*net.UDPConn
-	sent *atomic.Int64
-	port int
+	sent   *atomic.Int64
+	port   int
+	faults *faults // loss / duplication / reordering on the publisher → server hop
 }
 
 func (c *pubPC) WriteTo(b []byte, addr net.Addr) (int, error) {
 	if c.port%2 == 0 && len(b) >= 12 {
 		c.sent.Add(1)
+		if c.faults != nil {
+			return c.faults.send(c.UDPConn, b, addr)
+		}
 	}
 	return c.UDPConn.WriteTo(b, addr)
 }
